@@ -607,7 +607,9 @@ func (p *Process) StartWith(ctx context.Context, element schema.FlowNodeInterfac
 
 		// StartAll cease flow monitor: one per instance, it waits for every start event
 		p.monitorOnce.Do(func() {
-			sender := p.tracer.RegisterSender()
+			// the monitor announces the end of the flow on the instance's inner tracer: it is a
+			// registered sender of that tracer (which the outer one outlives through the relay)
+			sender := p.subTracer.RegisterSender()
 			go p.ceaseFlowMonitor(p.subTracer)(ctx, sender)
 		})
 		p.tracer.Send(InstantiationTrace{InstanceId: p.id})
